@@ -954,7 +954,7 @@ def features(a, b):
     sm = set_members(a, []) + set_members(b, [])
     if any(isinstance(x, str) and (":" in x or x.lower() == "none") for x in sm):
         f.add("tag_like_set_member")
-    if D.set_alias(a, b):
+    if D.set_alias(a, b) or xset_alias(a, b, {"enum": True}):
         f.add("set_alias")
     if any(isinstance(x, bool) for x in sm):
         f.add("bool_set_member")
@@ -2263,7 +2263,7 @@ def run(ctx):
     thorough = ctx.thorough
     replay_witnesses(ctx)
     replay_trunc_date(ctx)
-    atom_level(ctx, 5000 if thorough else 420)
+    atom_level(ctx, 5000 if thorough else 320)
 
     # ---- structural correspondence + oracle on the modelled universe ----
     per_spec = 1500 if thorough else 55
@@ -2321,7 +2321,7 @@ def run(ctx):
     # ---- the extended model (arbitrary floats, datetimes; + truncate_datetime, default_timezone) ----
     global _XU
     _XU = True
-    per_spec = 450 if thorough else 26
+    per_spec = 450 if thorough else 22
     xjobs, ojobs, mjobs2 = [], [], []
     for name, sp in xspecs(rng):
         for fam, a, b, log in gen_pairs(rng, sp, per_spec, True):
